@@ -94,13 +94,14 @@ def tasks_of(rec):
 def stress(ctx, rep):
     """failing-input search on the real code: many parents of one layer share a child, large batch, many threads"""
     root = fan_net(16)
-    for attempt in range(4 if ctx.tier == 'quick' else 8):
+    for attempt in range(6 if ctx.tier == 'quick' else 12):
+        nj = (16, -1)[attempt % 2]
         X = np.full((2_000_000, 1), np.nan, dtype=np.float32)
-        Y = mpe(root, X, n_jobs=16)
+        Y = mpe(root, X, n_jobs=nj)
         unfilled = int(np.isnan(Y).sum())
         ctx.count('stress-runs')
         if unfilled:
-            return dict(kind='c08-stress', parents=16, rows=2_000_000, n_jobs=16, unfilled=unfilled, attempt=attempt)
+            return dict(kind='c08-stress', parents=16, rows=2_000_000, n_jobs=nj, unfilled=unfilled, attempt=attempt)
     return None
 
 
@@ -148,9 +149,12 @@ def run(ctx):
             if np.any(np.isnan(sm[:, scope])) or not np.array_equal(sm[obs], Q[obs]):
                 ctx.violation('c08-sample-incomplete', f'sample with n_jobs={nj} left entries unfilled or changed evidence [{name}]', replay=dict(rep, n_jobs=nj))
         # (i)-(ii) recorded accesses of the parallel passes: layering, barrier, lock discipline
-        (_, rec_bu) = record(lambda: log_likelihood(root, Q, n_jobs=4))
-        (_, rec_td) = record(lambda: mpe(root, Q, n_jobs=4))
-        for label, rec in (('bottom-up', rec_bu), ('top-down', rec_td)):
+        recs = []
+        for nj in (4, -1):
+            (_, rec_bu) = record(lambda: log_likelihood(root, Q, n_jobs=nj))
+            (_, rec_td) = record(lambda: mpe(root, Q, n_jobs=nj))
+            recs += [(f'bottom-up (n_jobs={nj})', rec_bu), (f'top-down (n_jobs={nj})', rec_td)]
+        for label, rec in recs:
             # mpe records its forward pass (sequential, not traced) and the top-down parallel pass
             layers, barrier_ok = tasks_of(rec)
             ctx.count('traces')
@@ -164,7 +168,7 @@ def run(ctx):
                     ctx.count('undisciplined-traces')
                     if discipline_broken is None:
                         discipline_broken = (name, label, ans, rep)
-                if label == 'top-down':
+                if label.startswith('top-down'):
                     drv.ask(dict(op='net', nodes=table, root=index[id(root)], dom=dom))
                     m = drv.ask(dict(op='layers'))
                     impl_layers = topological_order_layered(root)
